@@ -45,7 +45,11 @@ PROPS = {
         "fns": fns(STREAM + [F + "_check_arg_data", F + "_mktmpfile", F + "_find_object"])
         + fns([f for f in OBJ_CORE if "_verify_object_information" not in f],
               FUNCTIONAL + r"|loop-fold/.*|call:.*")
-        + fns([F + "store_object", F + "retrieve_object"]) + fns(PATHS),
+        + fns([F + "store_object", F + "retrieve_object"]) + fns(PATHS)
+        # "whatever calls are made on other pids": the calls that edit shared reference files
+        + fns([F + "delete_object", F + "tag_object", F + "_store_hashstore_refs_files",
+               F + "_update_refs_file", F + "_is_string_in_refs_file", F + "_delete_object_only",
+               F + "delete_if_invalid_object"], r"post/(outcome|result|fs)"),
         "extra": [r"stream/.*"],
         "lemmas": ["C01/store-then-retrieve"] + ["frame/" + o for o in (
             "store_object", "tag_object", "delete_object", "delete_if_invalid_object",
@@ -231,14 +235,17 @@ PROPS = {
     "C19": {
         "fns": fns([F + "store_object", F + "delete_if_invalid_object", F + "tag_object",
                     F + "_verify_object_information", F + "_store_data_only",
-                    F + "_delete_object_only"], r"post/(outcome|result|fs)"),
+                    F + "_delete_object_only", F + "_move_and_get_checksums",
+                    F + "_store_and_validate_data", F + "_store_hashstore_refs_files"],
+                   r"post/(outcome|result|fs)"),
         "lemmas": ["C19/one-call-vs-steps"],
         "lemma_select": [r"lemma/C19/.*"],
     },
 }
 
 
-QUICK_FAULT = ["tag_object: first pid of the cid", "tag_object: additional pid of the cid",
+QUICK_FAULT = ["tag_object: pid already bound to the requested cid",
+               "tag_object: pid bound to another cid", "tag_object: first pid of the cid", "tag_object: additional pid of the cid",
                "delete_object: sole reference", "delete_object: shared object",
                "store_metadata: new document", "store_metadata: overwrite",
                "delete_metadata: one format", "delete_metadata: all documents",
